@@ -624,6 +624,68 @@ func c19R4(c *Ctx, matcher *ssa.Function, patterns *ssa.Parameter, loop rangeLoo
 				return false
 			})
 			c.check(idxA != nil && idxA == idxB, "R4", "array-positionwise", p.InstrPos(rec), "element i is matched against sub-pattern i", "the element and the sub-pattern passed to the recursive match are not taken at the same position")
+			// the bindings of the sub-matches are merged unconditionally: in the loop that copies them the
+			// store happens in every iteration and the loop is left only at its end (a repeated name is
+			// not a constraint: an identifier matches anything)
+			nMerge := 0
+			for blk := range reg {
+				for _, in := range blk.Instrs {
+					mu, ok := in.(*ssa.MapUpdate)
+					if !ok {
+						continue
+					}
+					if _, fresh := mu.Map.(*ssa.MakeMap); !fresh {
+						continue
+					}
+					// the innermost loop around the store
+					var hdr *ssa.BasicBlock
+					for _, h := range matcher.Blocks {
+						if !h.Dominates(mu.Block()) || !reachableFrom([]*ssa.BasicBlock{mu.Block()}, nil)[h] {
+							continue
+						}
+						back := false
+						for _, pr := range h.Preds {
+							if h.Dominates(pr) {
+								back = true
+							}
+						}
+						if back && (hdr == nil || hdr.Dominates(h)) {
+							hdr = h
+						}
+					}
+					if hdr == nil {
+						continue
+					}
+					nMerge++
+					inLoop := map[*ssa.BasicBlock]bool{}
+					for _, x := range matcher.Blocks {
+						if hdr.Dominates(x) && reachableFrom([]*ssa.BasicBlock{x}, nil)[hdr] {
+							inLoop[x] = true
+						}
+					}
+					stop := map[*ssa.BasicBlock]bool{mu.Block(): true}
+					for _, x := range matcher.Blocks {
+						if !inLoop[x] {
+							stop[x] = true
+						}
+					}
+					okMerge := !reachableFrom(hdr.Succs, stop)[hdr] || hdr == mu.Block()
+					for x := range inLoop {
+						if x == hdr {
+							continue
+						}
+						for _, sx := range x.Succs {
+							if !inLoop[sx] {
+								okMerge = false
+							}
+						}
+					}
+					c.check(okMerge, "R4", "array-bindings-merged-unconditionally", p.InstrPos(mu), "every binding of a matched element is kept", "the loop that merges the bindings of the elements skips a binding or leaves early on some condition: the alternative then fails (or loses a name) although every element matched its sub-pattern — an identifier matches anything, a repeated one included")
+				}
+			}
+			if nMerge == 0 {
+				c.undecided("R4", "array-bindings-merged-unconditionally", p.Pos(matcher.Pos()), "no merge of sub-match bindings into the alternative's map found")
+			}
 		}
 	}
 	// default arm: error
